@@ -415,16 +415,22 @@ func (q *Query) Emit(wantModel bool) string {
 	var sb strings.Builder
 	sb.WriteString("(set-option :produce-models true)\n(set-logic ALL)\n")
 	var sorts []string
+	TS.mu.Lock()
 	for s := range TS.sorts {
 		sorts = append(sorts, s)
 	}
+	ufsSnap := make(map[string]UFDecl, len(TS.ufs))
+	for n, d := range TS.ufs {
+		ufsSnap[n] = d
+	}
+	TS.mu.Unlock()
 	sort.Strings(sorts)
 	for _, s := range sorts {
 		fmt.Fprintf(&sb, "(declare-sort %s 0)\n", s)
 	}
 	// declare every known UF (axioms may mention ones not in the terms)
 	var ufn []string
-	for n := range TS.ufs {
+	for n := range ufsSnap {
 		ufn = append(ufn, n)
 	}
 	sort.Strings(ufn)
@@ -433,7 +439,7 @@ func (q *Query) Emit(wantModel bool) string {
 		if !e.ufs[n] && !strings.Contains(axtext, n) {
 			continue
 		}
-		d := TS.ufs[n]
+		d := ufsSnap[n]
 		as := make([]string, len(d.Args))
 		for i, a := range d.Args {
 			as[i] = string(a)
